@@ -361,7 +361,7 @@ def parse_helper(body, arg, want_access, want_visit):
     return 'mkHelper %s %s %s' % (ACCESS[m.group(2)], 'VisitSeq' if m.group(5) == 'visit_seq' else 'VisitMap', left)
 
 def top_fn(src, name, sig_re):
-    ms = list(re.finditer(r'^fn %s%s\s*' % (name, sig_re), src, re.M))
+    ms = list(re.finditer(r'^fn %s%s' % (name, sig_re), src, re.M))
     if len(ms) != 1: raise Broken('expected exactly one `fn %s` with the pinned signature, found %d' % (name, len(ms)))
     return norm(strip_comments(block_at(src, src.index('{', ms[0].end() - 1))[0]))
 
@@ -427,6 +427,7 @@ def parse_variant_method(name, body, side):
         else:
             raise Broken('pattern outside the subset: `%s`' % p.s[p.i:p.i + 50])
         p.need('=>')
+        block_arm = False
         if p.eat('Deserialize::deserialize(value)'):
             if name != 'unit_variant' or binder != 'value': raise Broken('Deserialize::deserialize(value) outside unit_variant / a `Some(value)` arm')
             a = 'XUnitFromValue'
@@ -445,12 +446,13 @@ def parse_variant_method(name, body, side):
         elif p.eat('{ if v.is_empty() { visitor.visit_unit() } else { %s(v, visitor) } }' % va):
             if name != 'tuple_variant' or pat != 'OSomeArray': raise Broken('%s outside tuple_variant / a `Some(Value::Array(v))` arm' % va)
             a = 'XEmptyUnitElseArray ' + ('HVisitArrayRef' if side == 'ref' else 'HVisitArray')
+            block_arm = True
         elif p.eat('v.deserialize_any(visitor)'):
             if name != 'struct_variant' or pat != 'OSomeObject': raise Broken('v.deserialize_any(visitor) outside struct_variant / a `Some(Value::Object(v))` arm')
             a = 'XMapAny'
         else:
             raise Broken('action outside the subset: `%s`' % p.s[p.i:p.i + 70])
-        if not p.eat(','):
+        if not p.eat(',') and not block_arm:
             p.ws()
             if not p.s.startswith('}', p.i): raise Broken('`,` expected after a match arm at `%s`' % p.s[p.i:p.i + 40])
         arms.append('(%s, %s)' % (pat, a))
